@@ -1533,14 +1533,20 @@ fn handle_pod(
                 .0
                 .get_mut(&OsString::from(&pod))
                 .ok_or_else(|| ConversionError::PodNotFound(pod))?;
-            podman.add("--pod-id-file");
-            podman.add(format!("%t/{}.pod-id", pod_info.service_name));
-
             let pod_service_name = pod_info
                 .get_service_file_name()
                 .to_str()
                 .expect("pod service name is not a valid UTF-8 string")
                 .to_string();
+
+            // the pod's own service writes %t/%N.pod-id, and %N is the name of its service *file*
+            podman.add("--pod-id-file");
+            podman.add(format!(
+                "%t/{}.pod-id",
+                pod_service_name
+                    .strip_suffix(".service")
+                    .unwrap_or(pod_service_name.as_str())
+            ));
             service_unit_file.add(UNIT_SECTION, "BindsTo", &pod_service_name);
             service_unit_file.add(UNIT_SECTION, "After", &pod_service_name);
 
